@@ -1,8 +1,8 @@
 ------------------------------ MODULE MC_C08 ------------------------------
 EXTENDS C08_MPSCanon
 DevNone    == {}
-\* the code as it is after the fix: commits for swap_both / measure_last / tnorm_flag (KF-C08-2 and -4 remain)
-DevCode    == {"sample_info", "measure_outcome"}
+\* the code as it is: every named deviation has been repaired (the MC_dev_* configurations keep them as self-tests)
+DevCode    == {}
 DevSwap    == {"swap_both"}
 DevSample  == {"sample_info"}
 DevMeasure == {"measure_last"}
